@@ -168,11 +168,11 @@ fn check_insert(map: &mut HashMap<String, String>, key: String, dg: String) -> b
 
 /// Observe every artefact of a synthesis call and check it against the tables.
 fn observe(engine: &Engine, inp: &Input, keys: &Value, t: &mut Tables) -> Result<Vec<f64>, (String, String)> {
-    let before = format!("{:?}", engine.condition);
+    let before = settings_snapshot(engine);
     let w = synth(engine, inp).map_err(|e| ("synth:error".to_string(), e))?;
     let d = durations(engine, inp).map_err(|e| ("durations:error".to_string(), e))?;
     let g = generator(engine, inp).map_err(|e| ("generator:error".to_string(), e))?;
-    if format!("{:?}", engine.condition) != before {
+    if settings_snapshot(engine) != before {
         return Err(("purity:settings".into(), "a synthesis call changed the engine's observable settings".into()));
     }
     let dd: Vec<f64> = d.iter().map(|x| *x as f64).collect();
